@@ -229,6 +229,38 @@ func (c *ExprCtx) near(t *rapid.T, pi pathInfo) model.AV {
 		return model.Null()
 	case r < c.IllTyped+40:
 		return pi.V.Clone()
+	case (pi.V.T == "SS" || pi.V.T == "NS" || pi.V.T == "BS") && r < c.IllTyped+65:
+		// a set of the same size that shares every member but one
+		v := pi.V.Clone()
+		switch {
+		case v.T == "BS" && len(v.BS) > 0:
+			i := rapid.IntRange(0, len(v.BS)-1).Draw(t, "setTwinMember")
+			nb := append(append([]byte{}, v.BS[i]...), 0x7e)
+			for _, x := range v.BS {
+				if string(x) == string(nb) {
+					return v
+				}
+			}
+			v.BS[i] = nb
+		case v.T == "SS" && len(v.SS) > 0:
+			i := rapid.IntRange(0, len(v.SS)-1).Draw(t, "setTwinMember")
+			ns := v.SS[i] + "~"
+			for _, x := range v.SS {
+				if x == ns {
+					return v
+				}
+			}
+			v.SS[i] = ns
+		case v.T == "NS" && len(v.SS) > 0:
+			i := rapid.IntRange(0, len(v.SS)-1).Draw(t, "setTwinMember")
+			for _, x := range v.SS {
+				if d, ok := model.ParseDec(x); !ok || d.Cmp(model.MustDec("987654")) == 0 {
+					return v
+				}
+			}
+			v.SS[i] = "987654"
+		}
+		return v
 	case pi.V.T == "N" && r < c.IllTyped+55:
 		// a close neighbour: last significant digit one off
 		if d, ok := model.ParseDec(pi.V.S); ok {
@@ -245,7 +277,7 @@ var cmpOps = []string{"=", "<>", "<", "<=", ">", ">="}
 
 // Atom draws one atomic condition.
 func (c *ExprCtx) Atom(t *rapid.T) model.Expr {
-	kinds := []string{"cmp", "cmp", "cmp", "between", "in", "exists", "notexists", "type", "begins", "contains", "size", "pathcmp"}
+	kinds := []string{"cmp", "cmp", "cmp", "between", "in", "exists", "notexists", "type", "begins", "contains", "size", "pathcmp", "cmp2"}
 	k := rapid.SampledFrom(kinds).Draw(t, "atom")
 	if c.NoSize && k == "size" {
 		k = "cmp"
@@ -304,6 +336,12 @@ func (c *ExprCtx) Atom(t *rapid.T) model.Expr {
 			return model.Cmp{Op: op, L: v, R: pi.P}
 		}
 		return model.Cmp{Op: op, L: pi.P, R: v}
+	case "cmp2":
+		// the same attribute compared twice in one expression, with close operands
+		op := rapid.SampledFrom([]string{"=", "<>"}).Draw(t, "op")
+		l := model.Cmp{Op: op, L: pi.P, R: c.Val(c.near(t, pi))}
+		r := model.Cmp{Op: op, L: pi.P, R: c.Val(c.near(t, pi))}
+		return model.Paren{X: model.Logic{Op: rapid.SampledFrom([]string{"OR", "AND"}).Draw(t, "cmp2Op"), L: l, R: r}}
 	case "pathcmp":
 		p2 := c.DrawPath(t)
 		return model.Cmp{Op: rapid.SampledFrom(cmpOps).Draw(t, "op"), L: pi.P, R: p2.P}
